@@ -11,6 +11,7 @@ extra_checks = sys.argv[4:]          # further properties to run the checks of
 wt = "/tmp/sv_" + name
 tgt = "/tmp/sv-target"
 env = dict(os.environ, CARGO_TARGET_DIR=tgt, CARGO_NET_OFFLINE="true")
+FEAT = (" --features " + os.environ["SEED_FEATURES"]) if os.environ.get("SEED_FEATURES") else ""
 def sh(cmd, cwd=None, timeout=3000):
     p = subprocess.run(cmd, shell=True, cwd=cwd, env=env, capture_output=True, text=True, timeout=timeout)
     return p.returncode, (p.stdout + p.stderr)
@@ -23,7 +24,7 @@ try:
     rc, out = sh(f"git apply {patch}", wt)
     if rc != 0:
         print("PATCH DOES NOT APPLY:", out[-500:]); meta["confirmed"] = False; raise SystemExit(3)
-    rc, out = sh("cargo test --workspace --offline 2>&1 | grep -E '^test result|FAILED|^error' ", wt)
+    rc, out = sh("cargo test --workspace --offline" + FEAT + " 2>&1 | grep -E '^test result|FAILED|^error' ", wt)
     suite_ok = ("FAILED" not in out) and ("error" not in out) and ("test result: ok" in out)
     meta["ran"].append({"cmd": "cargo test --workspace --offline (with the change, without the demo)", "ok": suite_ok, "out": out[-600:]})
     os.makedirs(os.path.join(wt, "tests"), exist_ok=True)
@@ -32,7 +33,7 @@ try:
     demo_names = [os.path.basename(d)[:-3] for d in demos]
     fails_with = True
     for dn in demo_names:
-        rc, out = sh(f"cargo test --offline --test {dn} 2>&1 | tail -15", wt)
+        rc, out = sh(f"cargo test --offline{FEAT} --test {dn} 2>&1 | tail -15", wt)
         bad = ("FAILED" in out) or ("panicked" in out) or ("test result: FAILED" in out)
         meta["ran"].append({"cmd": f"cargo test --offline --test {dn} (with the change)", "demo_fails": bad, "out": out[-800:]})
         fails_with = fails_with and bad
@@ -41,7 +42,7 @@ try:
         shutil.copy(d, os.path.join(wt, "tests", os.path.basename(d)))
     passes_without = True
     for dn in demo_names:
-        rc, out = sh(f"cargo test --offline --test {dn} 2>&1 | tail -6", wt)
+        rc, out = sh(f"cargo test --offline{FEAT} --test {dn} 2>&1 | tail -6", wt)
         good = ("test result: ok" in out) and ("FAILED" not in out)
         meta["ran"].append({"cmd": f"cargo test --offline --test {dn} (unchanged tree)", "demo_passes": good, "out": out[-400:]})
         passes_without = passes_without and good
